@@ -185,11 +185,20 @@ func c22Run(args []string) error {
 		m, _ := filepath.Glob(filepath.Join(repoDir(), pat))
 		files = append(files, m...)
 	}
+	var genFiles []string // "gen:<dir>": generated grammars, a quarter of the mutants start from them
 	for _, dir := range args[2:] {
+		if d, ok := strings.CutPrefix(dir, "gen:"); ok {
+			m, _ := filepath.Glob(filepath.Join(d, "*.tm*"))
+			sort.Strings(m)
+			genFiles = append(genFiles, m...)
+			continue
+		}
 		m, _ := filepath.Glob(filepath.Join(dir, "*.tm*"))
 		files = append(files, m...)
 	}
 	sort.Strings(files)
+	nOwn := len(files)
+	files = append(files, genFiles...)
 	var pool, names []string
 	for _, f := range files {
 		b, err := os.ReadFile(f)
@@ -208,6 +217,13 @@ func c22Run(args []string) error {
 	}
 	for len(cases) < n {
 		i := r.Intn(len(pool))
+		if nOwn < len(pool) && nOwn > 0 {
+			if r.Intn(4) == 0 {
+				i = nOwn + r.Intn(len(pool)-nOwn)
+			} else {
+				i = r.Intn(nOwn)
+			}
+		}
 		t, op := mutate(r, pool[i], pool)
 		cases = append(cases, c22Case{ID: len(cases), Seed: names[i], Op: op, Text: t})
 	}
